@@ -26,6 +26,7 @@ def keys():
         _KEYS['server'] = paramiko.RSAKey.generate(1024)
         _KEYS['other'] = paramiko.RSAKey.generate(1024)
         _KEYS['client'] = paramiko.RSAKey.generate(1024)
+        _KEYS['third'] = paramiko.RSAKey.generate(1024)
     return _KEYS
 
 
@@ -80,7 +81,7 @@ class FakeTransport:
             raise paramiko.SSHException('negotiation')
 
     def get_remote_server_key(self):
-        return keys()['server']
+        return keys()[self.env.get('server_key', 'server')]
 
     def _auth(self, kind):
         ok = self.env['auths'][self.n_auth] if self.n_auth < len(self.env['auths']) else False
@@ -112,27 +113,30 @@ class FakeTransport:
         self.active = False
 
 
-def run_connect(case):
+def run_connect(case, shared_home=None):
     """case: verify, known (a|h|p|d), pinned (a|m|d), cb (bool), profile, negotiates, auths [bool], subs [bool], port"""
     K = keys()
-    home = tempfile.mkdtemp(prefix='ncverif-home-')
+    own_home = shared_home is None
+    home = tempfile.mkdtemp(prefix='ncverif-home-') if own_home else shared_home
     old_home = os.environ.get('HOME')
     os.environ['HOME'] = home
     log = []
-    host, port = 'device.example', case.get('port', 830)
+    host, port = case.get('host', 'device.example'), case.get('port', 830)
     try:
-        os.makedirs(os.path.join(home, '.ssh'))
-        hk = paramiko.HostKeys()
-        if case['known'] == 'h':
-            hk.add(host, 'ssh-rsa', K['server'])
-        elif case['known'] == 'p':
-            hk.add('[%s]:%s' % (host, port), 'ssh-rsa', K['server'])
-        elif case['known'] == 'd':
-            hk.add(host, 'ssh-rsa', K['other'])
-        hk.save(os.path.join(home, '.ssh', 'known_hosts'))
+        if own_home:
+            os.makedirs(os.path.join(home, '.ssh'))
+            hk = paramiko.HostKeys()
+            if case['known'] == 'h':
+                hk.add(host, 'ssh-rsa', K['server'])
+            elif case['known'] == 'p':
+                hk.add('[%s]:%s' % (host, port), 'ssh-rsa', K['server'])
+            elif case['known'] == 'd':
+                hk.add(host, 'ssh-rsa', K['other'])
+            hk.save(os.path.join(home, '.ssh', 'known_hosts'))
         keyfile = os.path.join(home, 'id_test')
-        K['client'].write_private_key_file(keyfile, password='pw')
-        env = {'log': log, 'negotiates': case['negotiates'], 'auths': case['auths'], 'subs': case['subs']}
+        if not os.path.exists(keyfile):
+            K['client'].write_private_key_file(keyfile, password='pw')
+        env = {'log': log, 'negotiates': case['negotiates'], 'auths': case['auths'], 'subs': case['subs'], 'server_key': case.get('server_key', 'server')}
         FakeTransport.current = env
         orig_T = sshmod.paramiko.Transport
         orig_post = sshmod.SSHSession._post_connect
@@ -152,9 +156,9 @@ def run_connect(case):
         if case['profile'] in ('default', 'junos', 'nexus'):
             kw['unknown_host_cb'] = cb
         if case['pinned'] == 'm':
-            kw['hostkey_b64'] = base64.b64encode(K['server'].asbytes()).decode()
+            kw['hostkey_b64'] = base64.b64encode(K[case.get('server_key', 'server')].asbytes()).decode()
         elif case['pinned'] == 'd':
-            kw['hostkey_b64'] = base64.b64encode(K['other'].asbytes()).decode()
+            kw['hostkey_b64'] = base64.b64encode(K['other' if case.get('server_key', 'server') != 'other' else 'third'].asbytes()).decode()
         # credentials: n attempts = key file first (if any), then password
         n = len(case['auths'])
         if n >= 2:
@@ -184,4 +188,21 @@ def run_connect(case):
             os.environ.pop('HOME', None)
         else:
             os.environ['HOME'] = old_home
+        if own_home:
+            shutil.rmtree(home, ignore_errors=True)
+
+
+def run_sequence(case):
+    """Several connects in ONE process sharing one known_hosts file: case['entries'] = [[pattern, keyname]], case['connects'] = list of
+    run_connect cases (with host / port / server_key).  Each must behave as it would alone."""
+    K = keys()
+    home = tempfile.mkdtemp(prefix='ncverif-home-')
+    try:
+        os.makedirs(os.path.join(home, '.ssh'))
+        hk = paramiko.HostKeys()
+        for pat, kn in case['entries']:
+            hk.add(pat, 'ssh-rsa', K[kn])
+        hk.save(os.path.join(home, '.ssh', 'known_hosts'))
+        return {'results': [run_connect(c, shared_home=home) for c in case['connects']]}
+    finally:
         shutil.rmtree(home, ignore_errors=True)
